@@ -70,6 +70,8 @@ class Replay:
         self.call, self.lower, self.lift_result, self.lift_params, self.facts = call, lower, lift_result, lift_params, facts
         self.lower_z3 = lower_z3       # (z3 model, obligation) -> pyargs, for sorts without a generic lowering (JSON values)
         self.judge = judge             # (pyargs, outcome, obligation) -> [violated clause names], replaces the generic native evaluation
+        self.search = None             # () -> iterable of pyargs: small native search for a failing input when the failed obligation carries no input model
+                                       # (a loop-invariant obligation's counter-model is a mid-loop state, not an input); needs `judge`
 
 
 def import_target(target):
@@ -217,13 +219,33 @@ class Check:
                 if pre and bad:
                     self.violation(key, f'{ob.name} fails for input {rec["input"]}: real code gives {rec["native_outcome"]}, violating {bad}', rec)
                     return
-                # the solver's model does not reproduce on the real code: the engine's semantics are wrong here
+                # the solver's model does not reproduce on the real code: the engine's semantics are wrong here (or the lowering lost part of the model:
+                # contracts with a native search get a second chance below before this is called a checker fault)
+                if contract.replay.search and contract.replay.judge:
+                    for py2 in contract.replay.search():
+                        out2 = native_outcome(contract, py2); bad2 = contract.replay.judge(py2, out2, ob)
+                        if bad2:
+                            rec.update(input={k: repr(v) for k, v in py2.items()}, native_outcome=[out2[0], repr(out2[1])], natively_violated=bad2, found_by='native search (the solver model did not lower to a reproducing input)')
+                            self.violation(key, f'{ob.name} fails; failing input {rec["input"]}: real code gives {rec["native_outcome"]}, violating {bad2}', rec)
+                            return
                 self.faults.append(f'{ob.name}: model {ob.model} does not reproduce natively (pre={pre}, outcome={rec["native_outcome"]}) -- checker fault')
                 return
             except KeyError as ex:
                 rec['replay_note'] = f'no generic lowering ({ex}); reported without a concrete input'
             except Exception as ex:
                 rec['replay_note'] = f'replay harness failed: {type(ex).__name__}: {ex}'
+        rp = contract.replay
+        if rp is not None and rp.search and rp.judge and 'native_outcome' not in rec:
+            try:
+                for pyargs in rp.search():
+                    outcome = native_outcome(contract, pyargs)
+                    bad = rp.judge(pyargs, outcome, ob)
+                    if bad:
+                        rec.update(input={k: repr(v) for k, v in pyargs.items()}, native_outcome=[outcome[0], repr(outcome[1])], natively_violated=bad, found_by='native search after the failed obligation')
+                        self.violation(key, f'{ob.name} is no longer discharged; failing input {rec["input"]}: real code gives {rec["native_outcome"]}, violating {bad}', rec)
+                        return
+            except Exception as ex:
+                rec['replay_note'] = f'native search failed: {type(ex).__name__}: {ex}'
         self.violation(key, f'{ob.name} is no longer discharged (solver: {ob.result}, model: {ob.model})', rec, no_input=True)
 
     # ---- lemmas over contracts
